@@ -5,6 +5,7 @@ import (
 	"go/constant"
 	"go/token"
 	"go/types"
+	"os"
 	"strings"
 
 	"golang.org/x/tools/go/ssa"
@@ -946,9 +947,339 @@ func c10Dedup(c *Ctx, d *Dispatcher) {
 			filterOK = !appendReach(true) && appendReach(false)
 		}
 	}
+	if !filterOK {
+		// the prefix test written on bytes: `len(e) > 0 && e[0] == '$'` (with the guard holding whenever the byte test
+		// can hold); decided by cases as above
+		var cmp, guard *ssa.BinOp
+		var subject ssa.Value
+		ncmp := 0
+		instrs(nl, func(b *ssa.BasicBlock, i int, in ssa.Instruction) {
+			bo, ok := in.(*ssa.BinOp)
+			if !ok {
+				return
+			}
+			if k, isK := constIntArg(bo.Y); isK && k == '$' && bo.Op == token.EQL {
+				var sx, si ssa.Value
+				switch lk := bo.X.(type) {
+				case *ssa.Lookup:
+					sx, si = lk.X, lk.Index
+				case *ssa.Index:
+					sx, si = lk.X, lk.Index
+				}
+				if sx != nil {
+					if i0, isZ := constIntArg(si); isZ && i0 == 0 && sx.Type().String() == "string" {
+						cmp = bo
+						subject = sx
+						ncmp++
+					}
+				}
+			}
+		})
+		if os.Getenv("FCHECK_DEBUG") != "" {
+			fmt.Println("byte prefix test: comparisons found", ncmp)
+		}
+		if ncmp == 1 {
+			instrs(nl, func(b *ssa.BasicBlock, i int, in ssa.Instruction) {
+				bo, ok := in.(*ssa.BinOp)
+				if !ok {
+					return
+				}
+				lc, isC := bo.X.(*ssa.Call)
+				if !isC || !isBuiltinCall(lc, "len") || lc.Call.Args[0] != subject {
+					return
+				}
+				if k, isK := constIntArg(bo.Y); isK && (bo.Op == token.GTR && k == 0 || bo.Op == token.GEQ && k == 1 || bo.Op == token.NEQ && k == 0) {
+					guard = bo
+				}
+			})
+			if guard != nil && instrDominates(guard, cmp) {
+				appendReach := func(ps ...Pin) bool {
+					r := c.foldWith(nl, 0, ps...)
+					for _, call := range r.ReachableCalls() {
+						if isBuiltinCall(call.(ssa.Instruction), "append") && instrDominates(guard, call.(ssa.Instruction)) {
+							return true
+						}
+					}
+					return false
+				}
+				t, f := constant.MakeBool(true), constant.MakeBool(false)
+				if os.Getenv("FCHECK_DEBUG") != "" {
+					fmt.Println("byte prefix test:", appendReach(pinValue(guard, t), pinValue(cmp, t)), appendReach(pinValue(guard, t), pinValue(cmp, f)), appendReach(pinValue(guard, f)))
+				}
+				filterOK = !appendReach(pinValue(guard, t), pinValue(cmp, t)) && appendReach(pinValue(guard, t), pinValue(cmp, f)) && appendReach(pinValue(guard, f))
+			}
+		}
+	}
+	if !srcOK && filterOK {
+		// the full analysis written out in the non-local entry itself: a local collector started at the root, the
+		// filter applied to the de-duplicated fields
+		localColl, rootOK, dedup := false, false, false
+		instrs(nl, func(b *ssa.BasicBlock, i int, in ssa.Instruction) {
+			call, ok := in.(*ssa.Call)
+			if !ok {
+				return
+			}
+			if calleeOf(call) == d.Fn {
+				if _, isAlloc := call.Call.Args[0].(*ssa.Alloc); isAlloc {
+					localColl = true
+				}
+				for _, a := range call.Call.Args[1:] {
+					for _, rt := range plainOrigins.Roots(a) {
+						if rt.Kind == "param" && len(rt.Path) == 1 && rt.Path[0] == "Expression" {
+							rootOK = true
+						}
+					}
+				}
+			}
+			if cal := calleeOf(call); cal != nil && c.inModule(cal) && c.isDedup(cal) {
+				for _, r2 := range plainOrigins.Roots(call.Call.Args[0]) {
+					if len(r2.Path) >= 1 && (r2.Path[len(r2.Path)-1] == "fields" || r2.Path[0] == "fields") {
+						// ... and what is filtered is that call's result
+						for _, l := range naturalLoops(nl) {
+							for bb := range l.Body {
+								for _, x := range bb.Instrs {
+									if ia, isIA := x.(*ssa.IndexAddr); isIA && ia.X == ssa.Value(call) {
+										dedup = true
+									}
+								}
+							}
+						}
+					}
+				}
+			}
+		})
+		if localColl && rootOK && dedup {
+			srcOK = true
+		}
+	}
+	if !srcOK && !filterOK {
+		// the other design: the non-local variant runs the same analysis with a flag in the collector, and the
+		// collector leaves `$` paths out as it goes
+		if c.c10FilterWhileCollecting(d, entry, nl) {
+			srcOK, filterOK = true, true
+		}
+	}
 	c.R.Check(rule, "non-local-source", c.P.Pos(nl.Pos()), srcOK, "the non-local variant must filter the result of the full analysis")
 	c.R.Check(rule, "dollar-filter", c.P.Pos(nl.Pos()), filterOK, "the non-local variant must keep an entry exactly when it does not start with `$`")
 	c.R.Floor(rule, 5)
+}
+
+// c10FilterWhileCollecting: both entries build a local collector, start the dispatcher at the root and return the
+// de-duplicated fields; they differ in a constant boolean field of the collector that is written nowhere else; with the
+// non-local entry's value of that field every append to the collected fields sits on the false edge of
+// strings.HasPrefix(<the appended path>, "$"), with the other entry's value every append is reached whatever the
+// prefix test says.
+func (c *Ctx) c10FilterWhileCollecting(d *Dispatcher, entry, nl *ssa.Function) bool {
+	type setup struct {
+		coll *ssa.Alloc
+		flag map[string]bool
+		ok   bool
+	}
+	read := func(f *ssa.Function) setup {
+		var st setup
+		st.flag = map[string]bool{}
+		rootOK, dedupOK := false, false
+		instrs(f, func(b *ssa.BasicBlock, i int, in ssa.Instruction) {
+			switch x := in.(type) {
+			case *ssa.Call:
+				if calleeOf(x) != d.Fn {
+					return
+				}
+				if al, isAlloc := x.Call.Args[0].(*ssa.Alloc); isAlloc {
+					st.coll = al
+				}
+				for _, a := range x.Call.Args[1:] {
+					for _, rt := range plainOrigins.Roots(a) {
+						if rt.Kind == "param" && len(rt.Path) == 1 && rt.Path[0] == "Expression" {
+							rootOK = true
+						}
+					}
+				}
+			case *ssa.Return:
+				if len(x.Results) != 2 || !isNilConst(x.Results[1]) {
+					return
+				}
+				for _, rt := range plainOrigins.Roots(x.Results[0]) {
+					if rt.Kind == "call" && rt.Fn != nil && c.inModule(rt.Fn) && c.isDedup(rt.Fn) {
+						for _, r2 := range plainOrigins.Roots(rt.V.(*ssa.Call).Call.Args[0]) {
+							if len(r2.Path) >= 1 && (r2.Path[len(r2.Path)-1] == "fields" || r2.Path[0] == "fields") {
+								dedupOK = true
+							}
+						}
+					}
+				}
+			}
+		})
+		if st.coll == nil || !rootOK || !dedupOK {
+			return st
+		}
+		// constant boolean fields stored into the collector here
+		for _, ref := range *st.coll.Referrers() {
+			fa, isFA := ref.(*ssa.FieldAddr)
+			if !isFA {
+				continue
+			}
+			for _, r2 := range *fa.Referrers() {
+				if s2, isS := r2.(*ssa.Store); isS && s2.Addr == ssa.Value(fa) {
+					if v, isB := constBoolArg(s2.Val); isB {
+						st.flag[fieldName(fa)] = v
+					} else if isBoolType(s2.Val.Type()) {
+						return setup{}
+					}
+				}
+			}
+		}
+		st.ok = true
+		return st
+	}
+	se, sn := read(entry), read(nl)
+	if os.Getenv("FCHECK_DEBUG") != "" {
+		fmt.Println("filter-while-collecting: entries", se.ok, se.flag, sn.ok, sn.flag)
+	}
+	if !se.ok || !sn.ok {
+		return false
+	}
+	collT := namedOf(sn.coll.Type())
+	if collT == nil || namedOf(se.coll.Type()) != collT {
+		return false
+	}
+	// the flag: a boolean field of the collector (absent = false, the zero value)
+	st, isStruct := collT.Underlying().(*types.Struct)
+	if !isStruct {
+		return false
+	}
+	flag := ""
+	for i := 0; i < st.NumFields(); i++ {
+		f := st.Field(i)
+		if isBoolType(f.Type()) && se.flag[f.Name()] != sn.flag[f.Name()] {
+			if flag != "" {
+				return false
+			}
+			flag = f.Name()
+		}
+	}
+	if flag == "" {
+		return false
+	}
+	// written nowhere but in the two entries
+	clean := true
+	for _, f := range c.P.ModFuncs {
+		instrs(f, func(b *ssa.BasicBlock, i int, in ssa.Instruction) {
+			s2, isS := in.(*ssa.Store)
+			if !isS {
+				return
+			}
+			fa, isFA := s2.Addr.(*ssa.FieldAddr)
+			if isFA && fieldName(fa) == flag && namedOf(fa.X.Type()) == collT && f != entry && f != nl {
+				clean = false
+			}
+		})
+	}
+	if !clean {
+		return false
+	}
+	pinFlag := func(v bool) Pin {
+		return func(x ssa.Value) (constant.Value, bool) {
+			u, ok := x.(*ssa.UnOp)
+			if !ok || u.Op != token.MUL {
+				return nil, false
+			}
+			fa, ok := u.X.(*ssa.FieldAddr)
+			if !ok || fieldName(fa) != flag || namedOf(fa.X.Type()) != collT {
+				return nil, false
+			}
+			return constant.MakeBool(v), true
+		}
+	}
+	adders := 0
+	good := true
+	for _, g := range c.P.ModFuncs {
+		if len(g.Blocks) == 0 || g.Signature.Recv() == nil || namedOf(g.Signature.Recv().Type()) != collT {
+			continue
+		}
+		var apps []*ssa.Call
+		var tests []*ssa.Call
+		instrs(g, func(b *ssa.BasicBlock, i int, in ssa.Instruction) {
+			call, ok := in.(*ssa.Call)
+			if !ok {
+				return
+			}
+			if isBuiltinCall(call, "append") {
+				for _, rt := range plainOrigins.Roots(call.Call.Args[0]) {
+					if len(rt.Path) >= 1 && rt.Path[len(rt.Path)-1] == "fields" {
+						apps = append(apps, call)
+						return
+					}
+				}
+			}
+			if cal := calleeOf(call); cal != nil && cal.String() == "strings.HasPrefix" {
+				if k, isK := call.Call.Args[1].(*ssa.Const); isK && k.Value != nil && constant.StringVal(k.Value) == "$" {
+					tests = append(tests, call)
+				}
+			}
+		})
+		if len(apps) == 0 {
+			continue
+		}
+		adders++
+		if len(tests) != 1 {
+			good = false
+			continue
+		}
+		// the test is made on the path that is appended
+		same := false
+		for _, ap := range apps {
+			if len(ap.Call.Args) < 2 {
+				continue
+			}
+			// append(fields, x): x travels in the varargs array
+			arr := localArrayLiteral(ap.Call.Args[1])
+			if arr == nil {
+				continue
+			}
+			for _, ref := range *arr.Referrers() {
+				ia, isIA := ref.(*ssa.IndexAddr)
+				if !isIA {
+					continue
+				}
+				for _, r2 := range *ia.Referrers() {
+					st, isSt := r2.(*ssa.Store)
+					if !isSt || st.Addr != ssa.Value(ia) {
+						continue
+					}
+					if st.Val == tests[0].Call.Args[0] {
+						same = true
+					}
+					ra, rb := plainOrigins.Roots(st.Val), plainOrigins.Roots(tests[0].Call.Args[0])
+					if len(ra) == 1 && len(rb) == 1 && ra[0].Kind == rb[0].Kind && ra[0].V == rb[0].V && strings.Join(ra[0].Path, ".") == strings.Join(rb[0].Path, ".") {
+						same = true
+					}
+				}
+			}
+		}
+		reach := func(flagV, prefix bool) bool {
+			r := c.foldWith(g, 0, pinFlag(flagV), pinValue(tests[0], constant.MakeBool(prefix)))
+			for _, call := range r.ReachableCalls() {
+				for _, ap := range apps {
+					if call == ssa.CallInstruction(ap) {
+						return true
+					}
+				}
+			}
+			return false
+		}
+		nlV, enV := sn.flag[flag], se.flag[flag]
+		if os.Getenv("FCHECK_DEBUG") != "" {
+			fmt.Println("filter-while-collecting:", g.Name(), "same=", same, "reach(nl,$)=", reach(nlV, true), "reach(nl,-)=", reach(nlV, false), "reach(all,$)=", reach(enV, true), "reach(all,-)=", reach(enV, false))
+			for _, ap := range apps {
+				fmt.Println("   appended:", plainOrigins.Roots(ap.Call.Args[1]), "tested:", plainOrigins.Roots(tests[0].Call.Args[0]))
+			}
+		}
+		if !same || reach(nlV, true) || !reach(nlV, false) || !reach(enV, true) || !reach(enV, false) {
+			good = false
+		}
+	}
+	return good && adders > 0
 }
 
 // isDedup: the function inserts every element of its slice parameter into a
@@ -1414,7 +1745,6 @@ func c10ByReference(c *Ctx, d *Dispatcher) {
 	}
 	c.R.Floor(rule, 5)
 }
-
 
 // byReference: no function reachable from the given roots receives a value of the named struct type itself (value
 // receiver, struct parameter) or loads a whole one through a pointer: the state lives in one object that everything
